@@ -76,6 +76,9 @@ def gen_program(rng):
         fill = rng.random() < 0.3
         la = rng.choice([None, None, None, unit, 2 * unit, 16])
         banks.append({"unit": unit, "addr": addr, "size": size, "outp": outp, "fill": fill, "la": la})
+    if rng.random() < 0.5:
+        # the order in which banks are defined is not the order of their places in the output
+        rng.shuffle(banks)
     lines, items = [], []
     # items before any bankdef (default bank)
     def emit_items(count, cur_bank):
